@@ -98,3 +98,73 @@ pub fn drive_with<F: Future>(fut: F, max_polls: u64, mut on_pending: impl FnMut(
         }
     }
 }
+
+// ---------------------------------------------------------------------------------------------
+// A single-threaded task executor whose polling order is chosen by the caller (the tape): spawned
+// futures are queued and polled, one at a time, in the chosen order.
+
+type Task = futures::task::FutureObj<'static, ()>;
+
+#[derive(Clone, Default)]
+pub struct TaskQueue(Arc<std::sync::Mutex<Vec<Task>>>);
+
+impl futures::task::Spawn for TaskQueue {
+    fn spawn_obj(&self, future: Task) -> Result<(), futures::task::SpawnError> {
+        self.0.lock().unwrap_or_else(|e| e.into_inner()).push(future);
+        Ok(())
+    }
+}
+
+/// Drives `fut` and every task spawned on `queue`. `pick(n)` chooses which of the `n` pollable
+/// items (index 0 = the main future if it is pollable) is polled next.
+pub fn drive_with_tasks<F: Future>(
+    fut: F,
+    queue: &TaskQueue,
+    max_polls: u64,
+    mut pick: impl FnMut(usize) -> usize,
+) -> Outcome<F::Output> {
+    let mut main = Box::pin(fut);
+    let main_flag = Arc::new(Flag(AtomicBool::new(true)));
+    let mut tasks: Vec<(std::pin::Pin<Box<Task>>, Arc<Flag>)> = Vec::new();
+    let mut polls = 0;
+    loop {
+        // adopt newly spawned tasks
+        for t in queue.0.lock().unwrap_or_else(|e| e.into_inner()).drain(..) {
+            tasks.push((Box::pin(t), Arc::new(Flag(AtomicBool::new(true)))));
+        }
+        // pollable = woken (or never polled)
+        let mut cands: Vec<usize> = Vec::new(); // 0 = main, i + 1 = task i
+        if main_flag.0.load(Ordering::SeqCst) {
+            cands.push(0);
+        }
+        for (i, (_, f)) in tasks.iter().enumerate() {
+            if f.0.load(Ordering::SeqCst) {
+                cands.push(i + 1);
+            }
+        }
+        if cands.is_empty() {
+            return Outcome::Stuck(polls);
+        }
+        polls += 1;
+        if polls > max_polls {
+            return Outcome::PollCap;
+        }
+        let c = cands[pick(cands.len()).min(cands.len() - 1)];
+        if c == 0 {
+            main_flag.0.store(false, Ordering::SeqCst);
+            let waker = Waker::from(main_flag.clone());
+            let mut cx = Context::from_waker(&waker);
+            if let Poll::Ready(v) = main.as_mut().poll(&mut cx) {
+                return Outcome::Ready(v, polls);
+            }
+        } else {
+            let i = c - 1;
+            tasks[i].1 .0.store(false, Ordering::SeqCst);
+            let waker = Waker::from(tasks[i].1.clone());
+            let mut cx = Context::from_waker(&waker);
+            if let Poll::Ready(()) = tasks[i].0.as_mut().poll(&mut cx) {
+                tasks.remove(i);
+            }
+        }
+    }
+}
